@@ -30,6 +30,18 @@ def raise_fault(*a, **k):
     raise Injected("injected optimisation failure")
 
 
+# failures of the classes a library bug typically produces (a front end must not mistake them for "wrong kind of input")
+BUILTIN_FAULTS = {"AttributeError": AttributeError, "IndexError": IndexError, "TypeError": TypeError, "KeyError": KeyError}
+
+
+def raise_attribute_error(*a, **k):
+    raise AttributeError("module 'numpy' has no attribute 'float' (injected)")
+
+
+def raise_index_error(*a, **k):
+    raise IndexError("index 7 is out of bounds for axis 0 with size 7 (injected)")
+
+
 BASE = {"N": 2, "W": 2, "K": 3, "beta": 8.0, "lam": 0.11, "limit": 6, "m": 2, "biased": False, "eps": 0, "joint": False,
         "lengths": [70], "data_seed": 11, "rng_seed": 11, "regimes": 3}
 
@@ -58,7 +70,8 @@ def run_with_fault(cfg, fault, procs=1, mp=False):
                 t = state["round_tasks"]
                 state["round_tasks"] += 1
                 if (t // K, t % K) == (fault[1], fault[2]):
-                    return pool.apply_async(raise_fault, [], {})
+                    fn = {None: raise_fault, "AttributeError": raise_attribute_error, "IndexError": raise_index_error}[fault[3] if len(fault) > 3 else None]
+                    return pool.apply_async(fn, [], {})
                 return orig(cluster, n, w, lam, pool, *more, **kwmore)
             gl._setup_optimization_task = setup
             undo.append(lambda: setattr(gl, "_setup_optimization_task", orig))
@@ -154,6 +167,10 @@ def run(ctx):
         jr = run_with_fault(dict(BASE, joint=True, lengths=[40, 35]), ("task", 0, 1))
         if jr["result"] is not None or not (jr["error"] or "").startswith("Injected") or jr["children_after"]:
             ctx.violation("monitor", "joint front end: injected task failure did not surface cleanly (%r)" % jr["error"], {"case": "joint task fault"})
+        jr2 = run_with_fault(dict(BASE, joint=True, lengths=[40, 35]), ("task", 0, 1, "IndexError"))
+        if jr2["result"] is not None or not ((jr2["error"] or "").startswith("IndexError") and "injected" in (jr2["error"] or "")) or jr2["children_after"]:
+            ctx.violation("monitor", "joint front end: an IndexError raised by an optimisation task did not surface as itself (%r)" % jr2["error"],
+                          {"case": "joint task fault of class IndexError"})
         jc = run_with_fault(dict(BASE, joint=True, lengths=[40, 35], limit=2), None)
         if jc["error"] is not None or jc["children_after"]:
             ctx.violation("monitor", "clean joint run failed or left a worker behind: %r" % jc["error"], {"case": "joint clean"})
@@ -172,6 +189,8 @@ def run(ctx):
         faults += [("phase", ph, rd) for ph in ("statistics", "optimise", "relabel") for rd in range(min(3, nrounds))]
         faults += [("phase", "repopulate", rd) for rd in range(1, min(3, nrounds))]
         faults += [("post", rd, k) for rd in range(min(2, nrounds)) for k in (0, K - 1)]
+        # task failures of built-in classes (what a broken dependency raises), through both front ends
+        faults += [("task", 0, 1, "AttributeError"), ("task", 1, 0, "IndexError")]
         hung = {}
         modes = [(1, False), (2, True)] if not ctx.thorough else [(1, False), (1, True), (2, True), (3, True)]
         for (procs, mp) in modes:
@@ -192,8 +211,9 @@ def run(ctx):
                 if r["result"] is not None:
                     ctx.violation("monitor", "a result was returned although %s failed" % (fault,), {"case": case})
                     continue
-                if not (r["error"] or "").startswith("Injected"):
-                    ctx.violation("monitor", "the injected error did not surface as itself: %r" % r["error"], {"case": case})
+                want_cls = fault[3] if len(fault) > 3 else "Injected"
+                if not ((r["error"] or "").startswith(want_cls) and "injected" in (r["error"] or "")):
+                    ctx.violation("monitor", "the injected error (%s) did not surface as itself: %r" % (want_cls, r["error"]), {"case": case})
                 else:
                     hist["propagated"] += 1
                 if r["children_after"] != 0:
